@@ -120,6 +120,36 @@ func rawInputCases(name string, raw []byte, reg world.Regions, pairs bool) []raw
 		m := append(append([]byte(nil), raw...), world.Fill("trail", t)...)
 		out = append(out, rawCase{fmt.Sprintf("trail/%s/+%d", name, t), m})
 	}
+	// a valid quote with something in FRONT of it: the layout starts at byte 0. Prefixes shaped like containers a
+	// quote travels in (the Linux GetQuote buffer header, length prefixes, the quote-service message header, zeros)
+	{
+		le32 := func(v int) []byte { b := make([]byte, 4); binary.LittleEndian.PutUint32(b, uint32(v)); return b }
+		be32 := func(v int) []byte { b := make([]byte, 4); binary.BigEndian.PutUint32(b, uint32(v)); return b }
+		le64 := func(v uint64) []byte { b := make([]byte, 8); binary.LittleEndian.PutUint64(b, v); return b }
+		cat := func(parts ...[]byte) []byte {
+			var o []byte
+			for _, p := range parts {
+				o = append(o, p...)
+			}
+			return o
+		}
+		n := len(raw)
+		for _, pf := range []struct {
+			name string
+			b    []byte
+		}{
+			{"tdx_quote_hdr(version=1,status=0,in_len=0,out_len=n)", cat(le64(1), le64(0), le32(0), le32(n))},
+			{"tdx_quote_hdr(out_len=n-1)", cat(le64(1), le64(0), le32(1024), le32(n-1))},
+			{"tdx_quote_hdr(in-flight)", cat(le64(1), le64(^uint64(0)), le32(0), le32(n))},
+			{"le32-length", le32(n)}, {"be32-length", be32(n)}, {"le16-length", le32(n)[:2]},
+			{"service-message-header", cat(be32(n+24), []byte{1, 0, 0, 0}, le32(1), le32(n+24), le32(0), le32(0), le32(n))},
+			{"8-zero-bytes", make([]byte, 8)}, {"one-zero-byte", []byte{0}}, {"its-own-header", raw[:48]}, {"bom", []byte{0xef, 0xbb, 0xbf}}, {"newline", []byte{'\n'}},
+		} {
+			out = append(out, rawCase{fmt.Sprintf("prefixed/%s/%s", name, pf.name), cat(pf.b, raw)})
+			out = append(out, rawCase{fmt.Sprintf("prefixed+padded/%s/%s", name, pf.name), cat(pf.b, raw, make([]byte, 512))})
+		}
+		out = append(out, rawCase{fmt.Sprintf("doubled/%s", name), cat(raw, raw)})
+	}
 	// a truncated signed-data region that still declares itself consistently
 	for _, cut := range []int{0, 1, 63, 64, 127, 128, 133, 134, 517, 518, 581, 582, 583, 584, 589, 590} {
 		if cut > len(raw)-world.OffSigData {
@@ -389,7 +419,7 @@ func runC09(r *mc.Run) {
 	authLens := []int{0, 1, 31, 32, 33, 255, 256, 65535}
 	chainLens := []int{0, 1, 7, -1}
 	extraLens := []int{0, 1, 16}
-	contents := []string{"zero", "ff", "pattern"}
+	contents := []string{"zero", "ff", "pattern", "pattern-with-zero-tail", "zero-head-then-pattern"}
 	type mcase struct {
 		a, c, e int
 		content string
@@ -429,6 +459,19 @@ func runC09(r *mc.Run) {
 		fill(p.QESig)
 		p.Auth = world.Fill("c09auth", m.a)
 		fill(p.Auth)
+		// variable-length parts that end (resp. start) in zero octets: every octet counts, also a trailing NUL
+		switch m.content {
+		case "pattern-with-zero-tail":
+			for k := range p.Auth {
+				if k >= 32 || k >= (len(p.Auth)+1)/2 {
+					p.Auth[k] = 0
+				}
+			}
+		case "zero-head-then-pattern":
+			for k := 0; k < len(p.Auth)/2; k++ {
+				p.Auth[k] = 0
+			}
+		}
 		if m.c >= 0 {
 			p.Chain = world.Fill("c09chain", m.c)
 		}
